@@ -107,6 +107,18 @@ func c02obs(mi *core.MetaInfo, err error) string {
 		c02us(sums), c02str(mi.Digest().Hex()), c02hex(mi.InfoHash().Bytes()), c02zs(gpl), c02str(string(ser)))
 }
 
+// c02guard runs the code under test for one case and turns a panic into the distinct
+// observation OPanic, which the model never produces (so the case is both a mismatch and an
+// oracle violation) instead of killing the whole driver.
+func c02guard(f func() string) (ob string, panicked bool) {
+	defer func() {
+		if r := recover(); r != nil {
+			ob, panicked = "OPanic", true
+		}
+	}()
+	return f(), false
+}
+
 // ---- scripted reader ----------------------------------------------------------------------
 
 // scriptReader answers Read calls chunk by chunk: a chunk longer than the caller's buffer is
@@ -205,46 +217,61 @@ func c02sizeClass(n int, pl int64) string {
 func c02emitGen(ctx *hlib.Ctx, g *c02gen, kind string) {
 	d := c02digest(g)
 	chunks := c02chunks(g)
-	cc := make([][]byte, len(chunks))
-	copy(cc, chunks)
-	ms, errS := core.NewMetaInfo(d, &scriptReader{chunks: cc, fail: g.fail, eager: g.eager}, g.pl)
-	mb, errB := core.NewMetaInfoFromBytes(d, g.data, g.pl)
-	rt := "None"
-	if errB == nil {
-		ser, err := mb.Serialize()
-		if err == nil {
-			// through the metadata type the stores use (torrentmeta.go)
-			tm := &metadata.TorrentMeta{}
-			if err := tm.Deserialize(ser); err == nil {
-				rt = c02obs(tm.MetaInfo, nil)
-			}
-		}
-	}
 	cs := make([]string, len(chunks))
 	for i, c := range chunks {
 		cs[i] = c02hex(c)
 	}
 	in := fmt.Sprintf("(CGen %s %s %s %s)", c02str(d.Hex()), c02z(g.pl), hlib.List(cs), hlib.B(g.fail))
-	ref := c02obs(mb, errB)
-	ob := fmt.Sprintf("(OGen %s %s %s)", c02rel(c02obs(ms, errS), ref), ref, c02rel(rt, ref))
-	nt := errB == nil && len(g.data) > 0 && !g.fail
+	var errS, errB error
 	np := 0
-	if mb != nil {
-		np = mb.NumPieces()
+	ob, panicked := c02guard(func() string {
+		cc := make([][]byte, len(chunks))
+		copy(cc, chunks)
+		var ms, mb *core.MetaInfo
+		ms, errS = core.NewMetaInfo(d, &scriptReader{chunks: cc, fail: g.fail, eager: g.eager}, g.pl)
+		mb, errB = core.NewMetaInfoFromBytes(d, g.data, g.pl)
+		rt := "None"
+		if errB == nil {
+			np = mb.NumPieces()
+			ser, err := mb.Serialize()
+			if err == nil {
+				// through the metadata type the stores use (torrentmeta.go)
+				tm := &metadata.TorrentMeta{}
+				if err := tm.Deserialize(ser); err == nil {
+					rt = c02obs(tm.MetaInfo, nil)
+				}
+			}
+		}
+		ref := c02obs(mb, errB)
+		return fmt.Sprintf("(OGen %s %s %s)", c02rel(c02obs(ms, errS), ref), ref, c02rel(rt, ref))
+	})
+	var tags []string
+	if panicked {
+		tags = []string{"panic"}
 	}
-	ctx.Emit(hlib.Case{Coq: "mkcase " + in + " " + ob, NT: nt, Kind: kind,
+	nt := !panicked && errB == nil && len(g.data) > 0 && !g.fail
+	ctx.Emit(hlib.Case{Coq: "mkcase " + in + " " + ob, NT: nt, Kind: kind, Tags: tags,
 		Hist: []string{"gen:" + c02sizeClass(len(g.data), g.pl)},
 		Sample: map[string]interface{}{"len": len(g.data), "piece_length": g.pl, "chunks": len(chunks),
-			"reader_fails": g.fail, "num_pieces": np, "stream_err": errS != nil, "bytes_err": errB != nil}})
+			"reader_fails": g.fail, "num_pieces": np, "stream_err": errS != nil, "bytes_err": errB != nil, "panic": panicked}})
 }
 
 func c02emitParse(ctx *hlib.Ctx, raw []byte, kind string) {
-	mi, err := core.DeserializeMetaInfo(raw)
 	in := fmt.Sprintf("(CParse %s)", c02str(string(raw)))
-	ob := fmt.Sprintf("(OParse %s)", c02obs(mi, err))
-	ctx.Emit(hlib.Case{Coq: "mkcase " + in + " " + ob, NT: err == nil, Kind: kind,
-		Hist:   []string{"parse:" + map[bool]string{true: "ok", false: "error"}[err == nil]},
-		Sample: map[string]interface{}{"raw": string(raw), "error": err != nil}})
+	var err error
+	ob, panicked := c02guard(func() string {
+		var mi *core.MetaInfo
+		mi, err = core.DeserializeMetaInfo(raw)
+		return fmt.Sprintf("(OParse %s)", c02obs(mi, err))
+	})
+	var tags []string
+	if panicked {
+		tags = []string{"panic"}
+	}
+	ok := err == nil && !panicked
+	ctx.Emit(hlib.Case{Coq: "mkcase " + in + " " + ob, NT: ok, Kind: kind, Tags: tags,
+		Hist:   []string{"parse:" + map[bool]string{true: "ok", false: "error"}[ok]},
+		Sample: map[string]interface{}{"raw": string(raw), "error": err != nil, "panic": panicked}})
 }
 
 type c02row struct{ size, pl uint64 }
@@ -264,19 +291,27 @@ func c02tbl(rows []c02row) (map[datasize.ByteSize]datasize.ByteSize, string) {
 
 func c02emitTable(ctx *hlib.Ctx, rows []c02row, sizes []int64, kind string) {
 	m, ts := c02tbl(rows)
-	g, err := metainfogen.New(metainfogen.Config{PieceLengths: m}, nil)
-	ob := "(OTable None)"
-	if err == nil {
+	in := fmt.Sprintf("(CTable %s %s)", ts, c02zs(sizes))
+	var err error
+	ob, panicked := c02guard(func() string {
+		var g *metainfogen.Generator
+		g, err = metainfogen.New(metainfogen.Config{PieceLengths: m}, nil)
+		if err != nil {
+			return "(OTable None)"
+		}
 		out := make([]int64, len(sizes))
 		for i, sz := range sizes {
 			out[i] = g.GetPieceLength(sz)
 		}
-		ob = "(OTable (Some " + c02zs(out) + "))"
+		return "(OTable (Some " + c02zs(out) + "))"
+	})
+	var tags []string
+	if panicked {
+		tags = []string{"panic"}
 	}
-	in := fmt.Sprintf("(CTable %s %s)", ts, c02zs(sizes))
-	ctx.Emit(hlib.Case{Coq: "mkcase " + in + " " + ob, NT: err == nil && len(m) >= 2 && len(sizes) > 0, Kind: kind,
+	ctx.Emit(hlib.Case{Coq: "mkcase " + in + " " + ob, NT: !panicked && err == nil && len(m) >= 2 && len(sizes) > 0, Kind: kind, Tags: tags,
 		Hist:   []string{fmt.Sprintf("table:%d-rows", len(m))},
-		Sample: map[string]interface{}{"table": ts, "sizes": sizes, "new_error": err != nil}})
+		Sample: map[string]interface{}{"table": ts, "sizes": sizes, "new_error": err != nil, "panic": panicked}})
 }
 
 // c02emitGenerate stores data in a real CAStore, runs Generator.Generate and reads the torrent
@@ -288,29 +323,36 @@ func c02emitGenerate(ctx *hlib.Ctx, cas *store.CAStore, rows []c02row, data []by
 	if err != nil {
 		panic(err)
 	}
-	ob := "(OGenerate None)"
-	ok := false
-	g, err := metainfogen.New(metainfogen.Config{PieceLengths: m}, cas)
-	if err == nil {
+	in := fmt.Sprintf("(CGenerate %s %s %s)", ts, c02str(d.Hex()), c02hex(data))
+	ok, incon := false, false
+	ob, panicked := c02guard(func() string {
+		g, err := metainfogen.New(metainfogen.Config{PieceLengths: m}, cas)
+		if err != nil {
+			return "(OGenerate None)"
+		}
 		if err := cas.CreateCacheFile(d.Hex(), bytes.NewReader(data)); err != nil && !os.IsExist(err) {
-			ctx.Emit(hlib.Case{Coq: "mkcase (CGenerate " + ts + " " + c02str(d.Hex()) + " " + c02hex(data) + ") OBad",
-				Kind: kind, Incon: true})
-			return
+			incon = true // the store, not the code under test, refused: not evaluated
+			return "OBad"
 		}
 		// drop metadata left by an earlier case on the same content
 		cas.DeleteCacheFileMetadata(d.Hex(), &metadata.TorrentMeta{})
 		if err := g.Generate(d); err == nil {
 			var tm metadata.TorrentMeta
 			if err := cas.GetCacheFileMetadata(d.Hex(), &tm); err == nil {
-				ob = "(OGenerate " + c02obs(tm.MetaInfo, nil) + ")"
 				ok = true
+				return "(OGenerate " + c02obs(tm.MetaInfo, nil) + ")"
 			}
 		}
+		return "(OGenerate None)"
+	})
+	var tags []string
+	if panicked {
+		tags = []string{"panic"}
+		ok = false
 	}
-	in := fmt.Sprintf("(CGenerate %s %s %s)", ts, c02str(d.Hex()), c02hex(data))
-	ctx.Emit(hlib.Case{Coq: "mkcase " + in + " " + ob, NT: ok && len(data) > 0, Kind: kind,
+	ctx.Emit(hlib.Case{Coq: "mkcase " + in + " " + ob, NT: ok && len(data) > 0, Kind: kind, Tags: tags, Incon: incon,
 		Hist:   []string{"generate:" + map[bool]string{true: "ok", false: "error"}[ok]},
-		Sample: map[string]interface{}{"table": ts, "len": len(data), "ok": ok}})
+		Sample: map[string]interface{}{"table": ts, "len": len(data), "ok": ok, "panic": panicked}})
 }
 
 // ---- generators ---------------------------------------------------------------------------
@@ -378,7 +420,9 @@ func c02randPL(r *hlib.Rng) int64 {
 	case k < 15:
 		return int64(r.Range(65, 1500))
 	case k < 16:
-		return []int64{1 << 15, 1<<15 + 1, 1 << 20, 1 << 31, 1 << 40, 1 << 62, math.MaxInt64}[r.Intn(7)]
+		// (nothing between 2^31 and 2^62: a mutant that allocates a piece-sized buffer would die with a
+		// fatal out-of-memory error there, which cannot be recovered per case; 2^62 and up panic recoverably)
+		return []int64{1 << 15, 1<<15 + 1, 1 << 20, 1 << 31, 1<<62 - 1, 1 << 62, math.MaxInt64}[r.Intn(7)]
 	case k < 17:
 		return 1
 	default: // malformed
